@@ -102,6 +102,7 @@ type Sched struct {
 	Foreign   []string // threads found blocked outside a wrapper (engine error)
 	Diverged  string   // replay divergence (engine error)
 	short     []time.Time
+	From      int // exploration branches only at points >= From (see StartExploration)
 	Start     time.Time
 	End       time.Time
 }
@@ -223,6 +224,14 @@ func PointOp(op string) {
 
 // RMW separates the read from the write of a non-atomic read-modify-write.
 func RMW() { PointOp("rmw") }
+
+// StartExploration marks the end of a driver's set-up phase: the explorer does not branch at
+// choice points before this call (the set-up runs under the default schedule only).
+func StartExploration() {
+	if Active() {
+		S.From = len(S.Points)
+	}
+}
 
 // Yield is a plain scheduling point for drivers.
 func Yield() { PointOp("yield") }
